@@ -43,34 +43,34 @@ type result struct {
 }
 
 func gFaults(fs []jFault) string {
-	return kit.GListOf(fs, func(f jFault) string { return fmt.Sprintf("(%d, %s)", f.Key, f.fault.gallina()) })
+	return kit.GListOf(fs, func(f jFault) string { return fmt.Sprintf("(%s, %s)", gnat(f.Key), f.fault.gallina()) })
 }
 
 func gGetFaults(fs []jFault) string {
 	return kit.GListOf(fs, func(f jFault) string {
 		if f.Kind == "nf" {
-			return fmt.Sprintf("(%d, GNotFound)", f.Key)
+			return fmt.Sprintf("(%s, GNotFound)", gnat(f.Key))
 		}
-		return fmt.Sprintf("(%d, GErr)", f.Key)
+		return fmt.Sprintf("(%s, GErr)", gnat(f.Key))
 	})
 }
 
 func gOp(o *jOp) string {
 	switch o.Op {
 	case "start":
-		return fmt.Sprintf("Start %s %d %s %s %s", kit.GListOf(o.Cands, kit.GNat), o.NRepl, gFaults(o.FTaint), gFaults(o.FCond), kit.GListOf(o.FCreate, kit.GNat))
+		return fmt.Sprintf("Start %s %s %s %s %s", kit.GListOf(o.Cands, gnat), gnat(o.NRepl), gFaults(o.FTaint), gFaults(o.FCond), kit.GListOf(o.FCreate, gnat))
 	case "recon":
-		return fmt.Sprintf("Recon %d %s %s %s %s", o.Node, gGetFaults(o.FGet), gFaults(o.FDel), gFaults(o.FUnt), gFaults(o.FClr))
+		return fmt.Sprintf("Recon %s %s %s %s %s", gnat(o.Node), gGetFaults(o.FGet), gFaults(o.FDel), gFaults(o.FUnt), gFaults(o.FClr))
 	case "cleanup":
 		return fmt.Sprintf("Cleanup %s %s", gFaults(o.FUnt), gFaults(o.FClr))
 	case "launch":
-		return fmt.Sprintf("ReplLaunch %d %d", o.K, o.J)
+		return fmt.Sprintf("ReplLaunch %s %s", gnat(o.K), gnat(o.J))
 	case "init":
-		return fmt.Sprintf("ReplInit %d %d", o.K, o.J)
+		return fmt.Sprintf("ReplInit %s %s", gnat(o.K), gnat(o.J))
 	case "delapi":
-		return fmt.Sprintf("ReplDelApi %d %d", o.K, o.J)
+		return fmt.Sprintf("ReplDelApi %s %s", gnat(o.K), gnat(o.J))
 	case "delstate":
-		return fmt.Sprintf("ReplDelState %d %d", o.K, o.J)
+		return fmt.Sprintf("ReplDelState %s %s", gnat(o.K), gnat(o.J))
 	case "deliver":
 		return "Deliver"
 	case "advance":
@@ -291,7 +291,7 @@ func emit(c *kit.Ctx, kind string, r result) {
 	}
 	sort.Strings(shapes)
 	add := func(mode, key string) {
-		c.AddCase(fmt.Sprintf("Case %s %d %s", mode, r.n, steps), jCase{Kind: kind, Mode: mode, N: r.n, Ops: r.ops, KfKey: key, Shapes: strings.Join(shapes, "+")}, r.sig)
+		c.AddCase(fmt.Sprintf("Case %s %s %s", mode, gnat(r.n), steps), jCase{Kind: kind, Mode: mode, N: r.n, Ops: r.ops, KfKey: key, Shapes: strings.Join(shapes, "+")}, r.sig)
 	}
 	if len(shapes) == 0 {
 		add("MAll", "")
